@@ -77,6 +77,13 @@ def base_image(c, kind):
         if 'link' in kind:
             call(c, iso, 'add_hard_link', iso_old_path='/BOOT.;1', iso_new_path='/BOOTLNK.;1')
         return iso
+    if kind.endswith('+sub'):
+        # the directory holds one file in every namespace
+        iso = base_image(c, kind[:-4])
+        b = BASES[kind[:-4]]
+        sub = {k: {'iso_path': '/DIR1/SUB.;1', 'rr_name': 'sub', 'joliet_path': '/dir1/sub', 'udf_path': '/dir1/sub'}[k] for k in b['paths']}
+        call(c, iso, 'add_fp', data_file(c, b'sub'), 3, **sub)
+        return iso
     b = BASES[kind]
     iso = new_image(c, **b['kw'])
     call(c, iso, 'add_fp', data_file(c, b'hello world'), 11, **b['paths'])
